@@ -657,10 +657,55 @@ where
                 let r = h.exec(&op).await;
                 out.lock().unwrap().push(r);
             }
+            if profile == 9 {
+                // a shrink retires high-index workers that are busy with a backlog (they stay in the pool,
+                // flagged draining); the workers that remain go idle; then DrainRequests: the factory may
+                // stop only after the retiring workers have worked off their queues
+                if size < 2 {
+                    size = rng.range(2, 4) as usize;
+                    let r = h.exec(&format!("resize {size}")).await;
+                    out.lock().unwrap().push(r);
+                }
+                for _ in 0..(2 * size as u64 + rng.range(0, 4)) {
+                    let k = rng.below(nkeys.max(size as u64 + 1));
+                    let op = gen_dispatch_with(&mut next_id, k, "-", 0);
+                    let r = h.exec(&op).await;
+                    out.lock().unwrap().push(r);
+                }
+                let m = rng.range(1, size as u64 - 1) as usize;
+                size = m;
+                let r = h.exec(&format!("resize {m}")).await;
+                out.lock().unwrap().push(r);
+                // no worker has died yet: actor id = slot id
+                for _ in 0..12 {
+                    let low: Vec<u64> = sh.lock().unwrap().running.keys().copied().filter(|a| (*a as usize) < m).collect();
+                    if low.is_empty() {
+                        break;
+                    }
+                    let r = h.exec(&format!("finish {} ok", low[0])).await;
+                    out.lock().unwrap().push(r);
+                }
+                drained = true;
+                let r = h.exec("drain").await;
+                out.lock().unwrap().push(r);
+                for _ in 0..rng.range(1, 10) {
+                    let run: Vec<u64> = sh.lock().unwrap().running.keys().copied().collect();
+                    if run.is_empty() {
+                        break;
+                    }
+                    let r = h.exec(&format!("finish {} ok", rng.pick(&run))).await;
+                    out.lock().unwrap().push(r);
+                }
+            }
+            let mut after_resize = false;
             for i in 0..nops {
                 let running: Vec<u64> = sh.lock().unwrap().running.keys().copied().collect();
                 let live = h.live.clone();
-                let op = if h.blocked {
+                let op = if !h.blocked && after_resize && !drained && rng.chance(1, 5) {
+                    // DrainRequests right after a pool resize (workers may be flagged draining)
+                    drained = true;
+                    "drain".to_string()
+                } else if h.blocked {
                     match rng.below(12) {
                         0..=3 => gen_dispatch(&mut rng, &mut next_id, nkeys),
                         4..=5 if !running.is_empty() => format!("finish {} {}", rng.pick(&running), rng.pick(&["ok", "ok", "ok", "err", "panic"])),
@@ -727,6 +772,7 @@ where
                     }
                 };
                 st.lock().unwrap().bump(&format!("op_{}", op.split(' ').next().unwrap()));
+                after_resize = op.starts_with("resize ") || (op.starts_with("settings ") && !op.ends_with(" -"));
                 let r = h.exec(&op).await;
                 out.lock().unwrap().push(r);
                 if h.now() > 8_000_000_000 {
